@@ -50,9 +50,11 @@ VARIABLES
   nops,     \* operations so far
   cur,      \* the operation performed by the last step
   obs,      \* what the caller observed in the last step (or "none")
-  hist      \* recorded history of <<operation, observation>> (iff Record)
+  hist,     \* recorded history of <<operation, observation>> (iff Record)
+  handles   \* ghost: the Template objects callers were handed and may still hold - what each was
+            \* loaded as (key, version, globals); the two most recent ones
 
-vars == <<store, cache, fault, pend, clock, lastUse, validVer, nops, cur, obs, hist>>
+vars == <<store, cache, fault, pend, clock, lastUse, validVer, nops, cur, obs, hist, handles>>
 
 -----------------------------------------------------------------------------
 (* The LRU cache as the code implements it. *)
@@ -222,6 +224,10 @@ GhostNext ==
         IF k \notin CachedKeys(cache') THEN 0
         ELSE IF obs'.kind = "ok" /\ obs'.key = k /\ obs'.inner THEN obs'.ver
         ELSE validVer[k]]
+  /\ handles' = IF obs'.kind = "ok"
+                 THEN LET hs == Append(handles, [key |-> obs'.key, ver |-> obs'.ver, glob |-> obs'.glob])
+                      IN IF Len(hs) > 2 THEN Tail(hs) ELSE hs
+                 ELSE handles
 
 Init ==
   /\ store \in [Keys -> {1}]
@@ -235,6 +241,7 @@ Init ==
   /\ cur = [op |-> "init"]
   /\ obs = NoObs
   /\ hist = <<>>
+  /\ handles = <<>>
 
 \* one named disjunct per action (so that TLC's coverage reports each of them)
 DoLoadSync   == \E k \in Keys, g \in Globs :
@@ -278,6 +285,12 @@ OrderIsRecency ==
 \* of another name or namespace - and exactly the globals the caller passed
 NoCrossNamespace == obs.kind = "ok" => obs.key \in Keys
 NoGlobalsCarryOver == obs.kind = "ok" => obs.glob = obs.req
+\* ... nor a later caller's globals into the render of a Template an earlier caller still holds: what a
+\* held Template renders is what it was loaded as.  As found (deviation RebindShared) the object handed out
+\* was the cache entry itself, and a later hit rebound its globals.
+HeldView(h) == IF "RebindShared" \in Dev /\ h.key \in CachedKeys(cache) /\ cache[IndexOf(cache, h.key)].ver = h.ver
+               THEN [h EXCEPT !.glob = cache[IndexOf(cache, h.key)].glob] ELSE h
+HandlesStable == \A i \in DOMAIN handles : HeldView(handles[i]) = handles[i]
 
 \* With auto-reload and freshness information every completed step returns
 \* what the uncached loader returns at that moment (version now in the store,
